@@ -796,4 +796,442 @@ theorem inv_step {s : State} (inv : Inv s) (op : Op) (hop : op.keepsNames = true
   | apMatch k j => exact inv_stepAR inv _ (apMatchParametersValues_pres _ _ _ (inv.wf j))
   | apNamespace k p => cases hop
 
+/-! ## Two-pass bulk setters -/
+
+/-- same names and constraints everywhere (only values may differ) -/
+def SameShape (h h' : Store) : Prop :=
+  ∀ x, (h'.get x).name = (h.get x).name ∧ (h'.get x).con = (h.get x).con
+
+theorem SameShape.refl (h : Store) : SameShape h h := fun _ => ⟨rfl, rfl⟩
+theorem SameShape.trans {a b c : Store} (x : SameShape a b) (y : SameShape b c) : SameShape a c :=
+  fun i => ⟨(y i).1.trans (x i).1, (y i).2.trans (x i).2⟩
+
+theorem SameShape.find? {h h' : Store} (ss : SameShape h h') (l : List ObjId) (n : String) :
+    find? h' l n = find? h l n := find?_congr (fun i _ => (ss i).1) n
+
+theorem SameShape.nameOf {h h' : Store} (ss : SameShape h h') (i : ObjId) : nameOf h' i = nameOf h i := (ss i).1
+
+theorem SameShape.names {h h' : Store} (ss : SameShape h h') (l : List ObjId) : names h' l = names h l :=
+  names_congr (fun i _ => ss.nameOf i)
+
+theorem SameShape.rejects {h h' : Store} (ss : SameShape h h') (i : ObjId) (v : Rat) :
+    (h'.get i).rejects v = (h.get i).rejects v := by
+  unfold Par.rejects; rw [(ss i).2]
+
+theorem SameShape.put_setValue {h h' : Store} (ss : SameShape h h') {t : ObjId} {p : Par} {v : Rat}
+    (e : (h'.get t).setValue v = .ok p) : SameShape h (h'.put t p) := by
+  obtain ⟨e1, e2, _, _⟩ := setValue_ok e
+  intro x
+  have := ss x
+  have := ss t
+  grind
+
+theorem setValue_self (p : Par) : p.setValue p.value = .ok p := by simp [Par.setValue]
+
+theorem setValue_noerr_of_accepts {p : Par} {v : Rat} (h : p.rejects v = false) : ∃ q, p.setValue v = .ok q :=
+  ⟨_, setValue_of_accepts h⟩
+
+/-- one successful `setValue` written back: shape kept, the target holds `v`, others untouched -/
+theorem put_setValue_value {h : Store} {t : ObjId} {q : Par} {v : Rat} (e : (h.get t).setValue v = .ok q) :
+    ((h.put t q).get t).value = v ∧ ∀ x, x ≠ t → (h.put t q).get x = h.get x := by
+  obtain ⟨_, _, _, e4⟩ := setValue_ok e
+  exact ⟨by simp [e4], fun x hx => by simp [hx]⟩
+
+/-- the name of `s` does not occur among the names of `rest` → nobody in `rest` shares a target with `s` -/
+theorem ne_of_name_not_mem {h : Store} {rest : List ObjId} {s x : ObjId} (hn : nameOf h s ∉ names h rest)
+    (hx : x ∈ rest) : nameOf h x ≠ nameOf h s := by
+  intro c; apply hn; rw [← c]; exact List.mem_map_of_mem hx
+
+/-! ### `setParametersValues`: the second pass under unique source names -/
+
+theorem applySome_spec (l : List ObjId) (rest : List ObjId) (h : Store)
+    (nd : (names h rest).Nodup)
+    (chk : ∀ s ∈ rest, ∀ t, find? h l (nameOf h s) = some t → (h.get t).rejects (h.get s).value = false) :
+    let r := applySome h l rest
+    r.err = none ∧ SameShape h r.heap ∧ r.heap.next = h.next ∧
+    (∀ s ∈ rest, ∀ t, find? h l (nameOf h s) = some t → (r.heap.get t).value = (h.get s).value) ∧
+    (∀ i, (∀ s ∈ rest, find? h l (nameOf h s) ≠ some i) → r.heap.get i = h.get i) := by
+  induction rest generalizing h with
+  | nil => exact ⟨rfl, SameShape.refl h, rfl, by simp, fun _ _ => rfl⟩
+  | cons s rest ih =>
+    have nd' := List.nodup_cons.1 nd
+    have chk' : ∀ s ∈ rest, ∀ t, find? h l (nameOf h s) = some t → (h.get t).rejects (h.get s).value = false :=
+      fun s' hs' => chk s' (List.mem_cons_of_mem _ hs')
+    unfold applySome
+    split
+    · next e =>
+      obtain ⟨i1, i2, i3, i4, i5⟩ := ih h nd'.2 chk'
+      refine ⟨i1, i2, i3, ?_, ?_⟩
+      · intro s' hs' t ht
+        rcases List.mem_cons.1 hs' with rfl | hs'
+        · rw [e] at ht; cases ht
+        · exact i4 s' hs' t ht
+      · intro i hi
+        exact i5 i (fun s' hs' => hi s' (List.mem_cons_of_mem _ hs'))
+    · next t e =>
+      have ht := find?_some e
+      have hrej := chk s (List.mem_cons_self ..) t e
+      rw [setValue_of_accepts hrej]
+      dsimp only
+      have hq : (h.get t).setValue (h.get s).value = .ok { h.get t with value := (h.get s).value } :=
+        setValue_of_accepts hrej
+      have ss1 : SameShape h (h.put t { h.get t with value := (h.get s).value }) :=
+        (SameShape.refl h).put_setValue hq
+      obtain ⟨v1, v2⟩ := put_setValue_value hq
+      -- nobody in `rest` carries the name of `s` (= the name of `t`)
+      have hne : ∀ x ∈ rest, nameOf h x ≠ nameOf h s := fun x hx => ne_of_name_not_mem nd'.1 hx
+      have hnt : ∀ x ∈ rest, x ≠ t := fun x hx c => hne x hx (by rw [c, ht.2])
+      have key := ih (h.put t { h.get t with value := (h.get s).value })
+        (by rw [ss1.names]; exact nd'.2)
+        (by
+          intro s' hs' t' ht'
+          rw [ss1.nameOf, ss1.find?] at ht'
+          rw [ss1.rejects, v2 s' (hnt s' hs')]
+          exact chk' s' hs' t' ht')
+      obtain ⟨i1, i2, i3, i4, i5⟩ := key
+      refine ⟨i1, ss1.trans i2, by rw [i3]; rfl, ?_, ?_⟩
+      · intro s' hs' t' ht'
+        rcases List.mem_cons.1 hs' with rfl | hs'
+        · have ett : t' = t := by rw [e] at ht'; exact (Option.some.inj ht').symm
+          subst ett
+          rw [i5 t' ?_, v1]
+          intro x hx c
+          rw [ss1.nameOf, ss1.find?] at c
+          exact hne x hx ((find?_some c).2.symm.trans ht.2)
+        · have := i4 s' hs' t' (by rw [ss1.nameOf, ss1.find?]; exact ht')
+          rw [this, v2 s' (hnt s' hs')]
+      · intro i hi
+        have hit : i ≠ t := fun c => hi s (List.mem_cons_self ..) (c ▸ e)
+        rw [i5 i ?_, v2 i hit]
+        intro x hx c
+        rw [ss1.nameOf, ss1.find?] at c
+        exact hi x (List.mem_cons_of_mem _ hx) c
+
+
+theorem diffPos_congr (l : List ObjId) (rest : List ObjId) (h h' : Store) (pos : Nat) (ss : SameShape h h')
+    (hv : ∀ s ∈ rest, (h'.get s).value = (h.get s).value ∧
+      ∀ t, find? h l (nameOf h s) = some t → (h'.get t).value = (h.get t).value) :
+    diffPos h' l pos rest = diffPos h l pos rest := by
+  induction rest generalizing pos with
+  | nil => rfl
+  | cons s rest ih =>
+    have ih' := fun p => ih p (fun s' hs' => hv s' (List.mem_cons_of_mem _ hs'))
+    unfold diffPos
+    rw [ss.nameOf, ss.find?]
+    split
+    · exact ih' _
+    · next t e =>
+      obtain ⟨h1, h2⟩ := hv s (List.mem_cons_self ..)
+      rw [h1, h2 t e, ih']
+
+theorem matchSome_spec (l : List ObjId) (rest : List ObjId) (h : Store) (pos : Nat)
+    (nd : (names h rest).Nodup)
+    (chk : ∀ s ∈ rest, ∀ t, find? h l (nameOf h s) = some t → (h.get t).rejects (h.get s).value = false) :
+    let r := matchSome h l pos rest
+    r.err = none ∧ r.pos = diffPos h l pos rest ∧ SameShape h r.heap ∧ r.heap.next = h.next ∧
+    (∀ s ∈ rest, ∀ t, find? h l (nameOf h s) = some t → (r.heap.get t).value = (h.get s).value) ∧
+    (∀ i, (∀ s ∈ rest, find? h l (nameOf h s) ≠ some i) → r.heap.get i = h.get i) := by
+  induction rest generalizing h pos with
+  | nil => exact ⟨rfl, rfl, SameShape.refl h, rfl, by simp, fun _ _ => rfl⟩
+  | cons s rest ih =>
+    have nd' := List.nodup_cons.1 nd
+    have chk' : ∀ s ∈ rest, ∀ t, find? h l (nameOf h s) = some t → (h.get t).rejects (h.get s).value = false :=
+      fun s' hs' => chk s' (List.mem_cons_of_mem _ hs')
+    have hne : ∀ x ∈ rest, nameOf h x ≠ nameOf h s := fun x hx => ne_of_name_not_mem nd'.1 hx
+    cases e : find? h l (nameOf h s) with
+    | none =>
+      simp only [matchSome, diffPos, e]
+      obtain ⟨i1, i0, i2, i3, i4, i5⟩ := ih h (pos + 1) nd'.2 chk'
+      refine ⟨i1, i0, i2, i3, ?_, ?_⟩
+      · intro s' hs' t ht
+        rcases List.mem_cons.1 hs' with rfl | hs'
+        · rw [e] at ht; cases ht
+        · exact i4 s' hs' t ht
+      · intro i hi
+        exact i5 i (fun s' hs' => hi s' (List.mem_cons_of_mem _ hs'))
+    | some t =>
+      have ht := find?_some e
+      have hnt : ∀ x ∈ rest, x ≠ t := fun x hx c => hne x hx (by rw [c, ht.2])
+      simp only [matchSome, diffPos, e]
+      split
+      · next hdiff =>
+        have hrej := chk s (List.mem_cons_self ..) t e
+        rw [setValue_of_accepts hrej]
+        dsimp only
+        have hq : (h.get t).setValue (h.get s).value = .ok { h.get t with value := (h.get s).value } :=
+          setValue_of_accepts hrej
+        have ss1 : SameShape h (h.put t { h.get t with value := (h.get s).value }) :=
+          (SameShape.refl h).put_setValue hq
+        obtain ⟨v1, v2⟩ := put_setValue_value hq
+        have key := ih (h.put t { h.get t with value := (h.get s).value }) (pos + 1)
+          (by rw [ss1.names]; exact nd'.2)
+          (by
+            intro s' hs' t' ht'
+            rw [ss1.nameOf, ss1.find?] at ht'
+            rw [ss1.rejects, v2 s' (hnt s' hs')]
+            exact chk' s' hs' t' ht')
+        obtain ⟨i1, i0, i2, i3, i4, i5⟩ := key
+        refine ⟨i1, ?_, ss1.trans i2, by rw [i3]; rfl, ?_, ?_⟩
+        · rw [i0, diffPos_congr l rest h _ (pos + 1) ss1]
+          intro s' hs'
+          refine ⟨by rw [v2 s' (hnt s' hs')], fun t' ht' => ?_⟩
+          rw [v2 t' ?_]
+          intro c; subst c
+          exact hne s' hs' ((find?_some ht').2.symm.trans ht.2)
+        · intro s' hs' t' ht'
+          rcases List.mem_cons.1 hs' with rfl | hs'
+          · have ett : t' = t := by rw [e] at ht'; exact (Option.some.inj ht').symm
+            subst ett
+            rw [i5 t' ?_, v1]
+            intro x hx c
+            rw [ss1.nameOf, ss1.find?] at c
+            exact hne x hx ((find?_some c).2.symm.trans ht.2)
+          · have := i4 s' hs' t' (by rw [ss1.nameOf, ss1.find?]; exact ht')
+            rw [this, v2 s' (hnt s' hs')]
+        · intro i hi
+          have hit : i ≠ t := fun c => hi s (List.mem_cons_self ..) (c ▸ e)
+          rw [i5 i ?_, v2 i hit]
+          intro x hx c
+          rw [ss1.nameOf, ss1.find?] at c
+          exact hi x (List.mem_cons_of_mem _ hx) c
+      · next hsame =>
+        simp only [ne_eq, Decidable.not_not] at hsame
+        obtain ⟨i1, i0, i2, i3, i4, i5⟩ := ih h (pos + 1) nd'.2 chk'
+        refine ⟨i1, i0, i2, i3, ?_, ?_⟩
+        · intro s' hs' t' ht'
+          rcases List.mem_cons.1 hs' with rfl | hs'
+          · have ett : t' = t := by rw [e] at ht'; exact (Option.some.inj ht').symm
+            subst ett
+            rw [i5 t' ?_, hsame]
+            intro x hx c
+            exact hne x hx ((find?_some c).2.symm.trans ht.2)
+          · exact i4 s' hs' t' ht'
+        · intro i hi
+          exact i5 i (fun s' hs' => hi s' (List.mem_cons_of_mem _ hs'))
+
+theorem matchSome_noerr (h0 : Store) (l : List ObjId) (rest : List ObjId) (h : Store) (pos : Nat)
+    (ss : SameShape h0 h)
+    (inv : ∀ x, (h.get x).value = (h0.get x).value ∨ find? h0 l (nameOf h0 x) = some x)
+    (chk : ∀ s ∈ rest, ∀ t, find? h0 l (nameOf h0 s) = some t → (h0.get t).rejects (h0.get s).value = false) :
+    (matchSome h l pos rest).err = none := by
+  induction rest generalizing h pos with
+  | nil => rfl
+  | cons s rest ih =>
+    have chk' : ∀ s ∈ rest, ∀ t, find? h0 l (nameOf h0 s) = some t → (h0.get t).rejects (h0.get s).value = false :=
+      fun s' hs' => chk s' (List.mem_cons_of_mem _ hs')
+    unfold matchSome
+    rw [ss.find?, ss.nameOf]
+    split
+    · exact ih h _ ss inv chk'
+    · next t e =>
+      have ht := find?_some e
+      split
+      · have key : ∃ q, (h.get t).setValue (h.get s).value = .ok q := by
+          rcases inv s with hv | hself
+          · apply setValue_noerr_of_accepts
+            rw [ss.rejects, hv]; exact chk s (List.mem_cons_self ..) t e
+          · rw [e] at hself; cases hself; exact ⟨_, setValue_self _⟩
+        obtain ⟨q, hq⟩ := key
+        rw [hq]
+        dsimp only
+        refine ih _ _ (ss.put_setValue hq) ?_ chk'
+        intro x
+        by_cases hx : x = t
+        · subst hx; right; rw [ht.2]; exact e
+        · rcases inv x with hv | hself
+          · left; simp [hx, hv]
+          · right; exact hself
+      · exact ih h _ ss inv chk'
+
+theorem testSome_eq (h : Store) (l : List ObjId) (src : List ObjId) (pos : Nat) :
+    testSome h l src = !(diffPos h l pos src).isEmpty := by
+  induction src generalizing pos with
+  | nil => rfl
+  | cons s rest ih =>
+    cases e : find? h l (nameOf h s) with
+    | none => simp only [testSome, diffPos, e]; exact ih _
+    | some t =>
+      simp only [testSome, diffPos, e]
+      split
+      · next hd => simp [hd]
+      · next hd =>
+        simp only [ne_eq, Decidable.not_not] at hd
+        simp [hd, ih (pos + 1)]
+
+
+/-! ### first pass -/
+
+theorem checkSome_none {h : Store} {l src : List ObjId} :
+    checkSome h l src = none ↔
+      ∀ s ∈ src, ∀ t, find? h l (nameOf h s) = some t → (h.get t).rejects (h.get s).value = false := by
+  induction src with
+  | nil => simp [checkSome]
+  | cons s rest ih =>
+    unfold checkSome
+    split
+    · next e => rw [ih]; simp [e]
+    · next t e =>
+      split
+      · next hr =>
+        simp only [reduceCtorEq, List.mem_cons, forall_eq_or_imp, false_iff, not_and]
+        intro c; have := c t e; simp [hr] at this
+      · next hr =>
+        rw [ih]; simp only [List.mem_cons, forall_eq_or_imp, e, Option.some.injEq, forall_eq']
+        simp only [Bool.not_eq_true] at hr
+        simp [hr]
+
+theorem checkSome_some {h : Store} {l src : List ObjId} {e : Err} (c : checkSome h l src = some e) :
+    e = .constraint := by
+  induction src with
+  | nil => simp [checkSome] at c
+  | cons s rest ih =>
+    unfold checkSome at c
+    split at c
+    · exact ih c
+    · split at c
+      · cases c; rfl
+      · exact ih c
+
+/-! ### second pass never raises after a successful first pass (no hypothesis on names) -/
+
+theorem applySome_noerr (h0 : Store) (l : List ObjId) (rest : List ObjId) (h : Store)
+    (ss : SameShape h0 h)
+    (inv : ∀ x, (h.get x).value = (h0.get x).value ∨ find? h0 l (nameOf h0 x) = some x)
+    (chk : ∀ s ∈ rest, ∀ t, find? h0 l (nameOf h0 s) = some t → (h0.get t).rejects (h0.get s).value = false) :
+    (applySome h l rest).err = none := by
+  induction rest generalizing h with
+  | nil => rfl
+  | cons s rest ih =>
+    have chk' : ∀ s ∈ rest, ∀ t, find? h0 l (nameOf h0 s) = some t → (h0.get t).rejects (h0.get s).value = false :=
+      fun s' hs' => chk s' (List.mem_cons_of_mem _ hs')
+    unfold applySome
+    rw [ss.find?, ss.nameOf]
+    split
+    · exact ih h ss inv chk'
+    · next t e =>
+      have ht := find?_some e
+      -- the value written is accepted, or it is a self-write
+      have key : ∃ q, (h.get t).setValue (h.get s).value = .ok q := by
+        rcases inv s with hv | hself
+        · apply setValue_noerr_of_accepts
+          rw [ss.rejects, hv]; exact chk s (List.mem_cons_self ..) t e
+        · rw [e] at hself; cases hself; exact ⟨_, setValue_self _⟩
+      obtain ⟨q, hq⟩ := key
+      rw [hq]
+      refine ih _ (ss.put_setValue hq) ?_ chk'
+      intro x
+      by_cases hx : x = t
+      · subst hx; right; rw [ht.2]; exact e
+      · rcases inv x with hv | hself
+        · left; simp [hx, hv]
+        · right; exact hself
+
+
+
+/-! ### `setAllParametersValues` -/
+
+theorem checkAll_none {h : Store} {src l : List ObjId} :
+    checkAll h src l = none ↔
+      ∀ i ∈ l, ∃ j, find? h src (nameOf h i) = some j ∧ (h.get i).rejects (h.get j).value = false := by
+  induction l with
+  | nil => simp [checkAll]
+  | cons i rest ih =>
+    cases e : find? h src (nameOf h i) with
+    | none => simp [checkAll, e]
+    | some j =>
+      simp only [checkAll, e, List.mem_cons, forall_eq_or_imp, Option.some.injEq, exists_eq_left']
+      split
+      · next hr => simp [hr]
+      · next hr => simp only [Bool.not_eq_true] at hr; simp [hr, ih]
+
+theorem checkAll_some {h : Store} {src l : List ObjId} {e : Err} (c : checkAll h src l = some e) :
+    e = .notfound ∨ e = .constraint := by
+  induction l with
+  | nil => simp [checkAll] at c
+  | cons i rest ih =>
+    unfold checkAll at c
+    split at c
+    · cases c; exact Or.inl rfl
+    · split at c
+      · cases c; exact Or.inr rfl
+      · exact ih c
+
+/-- the second pass never raises after a successful first pass (no hypothesis on names) -/
+theorem applyAll_noerr (h0 : Store) (src : List ObjId) (rest : List ObjId) (h : Store)
+    (ss : SameShape h0 h)
+    (inv : ∀ x, find? h0 src (nameOf h0 x) = some x → (h.get x).value = (h0.get x).value)
+    (chk : ∀ i ∈ rest, ∃ j, find? h0 src (nameOf h0 i) = some j ∧ (h0.get i).rejects (h0.get j).value = false) :
+    (applyAll h src rest).err = none := by
+  induction rest generalizing h with
+  | nil => rfl
+  | cons i rest ih =>
+    have chk' : ∀ i ∈ rest, ∃ j, find? h0 src (nameOf h0 i) = some j ∧ (h0.get i).rejects (h0.get j).value = false :=
+      fun i' hi' => chk i' (List.mem_cons_of_mem _ hi')
+    obtain ⟨j, e, hr⟩ := chk i (List.mem_cons_self ..)
+    have hj := find?_some e
+    unfold applyAll
+    rw [ss.find?, ss.nameOf, e]
+    dsimp only
+    have hjv : (h.get j).value = (h0.get j).value := inv j (by rw [hj.2]; exact e)
+    have hq : (h.get i).setValue (h.get j).value = .ok { h.get i with value := (h.get j).value } :=
+      setValue_of_accepts (by rw [ss.rejects, hjv]; exact hr)
+    rw [hq]
+    refine ih _ (ss.put_setValue hq) ?_ chk'
+    intro x hx
+    by_cases hxi : x = i
+    · subst hxi
+      -- `x` is its own source: a self-write
+      rw [e] at hx; cases hx
+      simp [hjv]
+    · simp [hxi, inv x hx]
+
+theorem applyAll_spec (src : List ObjId) (rest : List ObjId) (h : Store)
+    (nd : (names h rest).Nodup)
+    (chk : ∀ i ∈ rest, ∃ j, find? h src (nameOf h i) = some j ∧ (h.get i).rejects (h.get j).value = false) :
+    let r := applyAll h src rest
+    r.err = none ∧ SameShape h r.heap ∧ r.heap.next = h.next ∧
+    (∀ i ∈ rest, ∀ j, find? h src (nameOf h i) = some j → (r.heap.get i).value = (h.get j).value) ∧
+    (∀ i, i ∉ rest → r.heap.get i = h.get i) := by
+  induction rest generalizing h with
+  | nil => exact ⟨rfl, SameShape.refl h, rfl, by simp, fun _ _ => rfl⟩
+  | cons i rest ih =>
+    have nd' := List.nodup_cons.1 nd
+    have chk' : ∀ i ∈ rest, ∃ j, find? h src (nameOf h i) = some j ∧ (h.get i).rejects (h.get j).value = false :=
+      fun i' hi' => chk i' (List.mem_cons_of_mem _ hi')
+    have hne : ∀ x ∈ rest, nameOf h x ≠ nameOf h i := fun x hx => ne_of_name_not_mem nd'.1 hx
+    have hni : i ∉ rest := fun c => hne i c rfl
+    obtain ⟨j, e, hr⟩ := chk i (List.mem_cons_self ..)
+    have hj := find?_some e
+    simp only [applyAll, e]
+    have hq : (h.get i).setValue (h.get j).value = .ok { h.get i with value := (h.get j).value } :=
+      setValue_of_accepts hr
+    rw [hq]
+    dsimp only
+    have ss1 : SameShape h (h.put i { h.get i with value := (h.get j).value }) :=
+      (SameShape.refl h).put_setValue hq
+    obtain ⟨v1, v2⟩ := put_setValue_value hq
+    -- the sources read later are not `i` (they carry another name)
+    have hsrc : ∀ i' ∈ rest, ∀ j', find? h src (nameOf h i') = some j' → j' ≠ i := by
+      intro i' hi' j' hj' c; subst c
+      exact hne i' hi' (find?_some hj').2.symm
+    have key := ih (h.put i { h.get i with value := (h.get j).value })
+      (by rw [ss1.names]; exact nd'.2)
+      (by
+        intro i' hi'
+        obtain ⟨j', e', hr'⟩ := chk' i' hi'
+        refine ⟨j', by rw [ss1.nameOf, ss1.find?]; exact e', ?_⟩
+        rw [ss1.rejects, v2 j' (hsrc i' hi' j' e')]; exact hr')
+    obtain ⟨i1, i2, i3, i4, i5⟩ := key
+    refine ⟨i1, ss1.trans i2, by rw [i3]; rfl, ?_, ?_⟩
+    · intro i' hi' j' hj'
+      rcases List.mem_cons.1 hi' with rfl | hi'
+      · have : j' = j := by rw [e] at hj'; exact (Option.some.inj hj').symm
+        subst this
+        rw [i5 i' hni, v1]
+      · rw [i4 i' hi' j' (by rw [ss1.nameOf, ss1.find?]; exact hj'), v2 j' (hsrc i' hi' j' hj')]
+    · intro x hx
+      have hxi : x ≠ i := fun c => hx (c ▸ List.mem_cons_self ..)
+      rw [i5 x (fun c => hx (List.mem_cons_of_mem _ c)), v2 x hxi]
+
+
 end Bpp.ParamList
